@@ -20,6 +20,58 @@ CHECKS = {
          "Real two-node swaps are driven to each ending (preimage, cooperative, CSV, CSV one block early) on both chains with random wallet funding layouts; each spend handed to the chain simulator is executed under consensus rules (btcd engine; template interpreter + Elements sighash + range/surjection proofs for Liquid), BIP68, and checked for single input = swap output, single own-wallet output, fee-only deduction, exact CSV sequence.",
          "Bitcoin wallet adapter is a harness mirror of clightning_wallet.go over the real onchain.BitcoinOnChain helpers (the real CLN/LND RPC adapters are not executed); Liquid runs the real LiquidOnChain over a simulated elementsd wallet.",
          "DESIGN.md C03"),
+ "C04": ('world-det', 'exploration', 'online oracle at every RebalancePayment crossing under scheduler-controlled Liquid tips + exhaustive grid through both real route builders',
+         'Real Liquid taker state machines (both roles) against a scripted maker: blocks before the announcement, delayed confirmation, tip moving between retries, failing first attempts, restarts, a backend reporting a tip below the anchor, heights offset to just below 2^32, invoice CLTV 0..40/negative/2^31 and planted protocol-6 records; every payment attempt must find a committed anchor with anchor <= reported tip < anchor+60, invoice CLTV <= 29 and maxTotalCLTVDelta 32; legacy swaps must create no payment. The builders (CLN route / LND request, via the verif exports) are swept exhaustively over final CLTV [-2,600]+extremes x limit {0,32}.',
+         'tip = height the simulated backend last reported to the node before the attempt (a block arriving between lookup and payment is not judged); LND BlockPadding = 3.',
+         'DESIGN.md C04'),
+ "C05": ('world-det', 'exploration', 'online oracle at every RebalancePayment crossing with exact integers; permitted HTLC delta read from the requests the real builders produce',
+         'Real Bitcoin taker state machines against a scripted maker that confirms its opening tx as early as it can (h_conf - start in -2..+3, incl. before the taker start for swap-out) and announces late; systematic corner grid (payment at start+499..506, invoice CLTV 499..505) plus random histories with delayed notifications, blocks between retries and restarts. Oracle: now + permitted(f) < h_conf + 1008 for CLN (f+1) and LND (f+3). The thin margin band of the unchanged tree is listed in known_findings.jsonl with its analytic slack bound; any slack beyond the bound is a new violation.',
+         'h_conf from the chain ground truth; now = height last reported to the node.',
+         'DESIGN.md C05'),
+ "C06": ('world-det', 'fault_enumeration', 'scripted payment-outcome sequences x timers x claim failures x crash-point enumeration with an online oracle at every outgoing coop_close against the Lightning ground truth',
+         'Both taker roles, both chains, CLN-like and LND-like Lightning personalities: attempt outcomes {settle, fail, error-while-pending then settled/failed/never, error-although-settled}, negotiation timer fired after the payment or late, claim broadcast failing 0/3/25 times, peer cancel after payment, and a kill at every boundary crossing of the payment/claim phase followed by Start+RecoverSwaps. At every coop_close leaving the taker no attempt of any incarnation may be pending or settled; a settled payment must end in a preimage claim accepted by the chain.',
+         'error-while-pending models an RPC/stream failure with the HTLC in flight; RecoverClaimPayment blocks while in flight (waitsendpay / TrackPaymentV2).',
+         'DESIGN.md C06'),
+ "C07": ('world-det', 'fault_enumeration', 'crash-point enumeration over both maker roles plus scripted hostile takers x injected faults, judged against chain ground truth and committed records, with a drain past the CSV',
+         '(i) both maker roles x both chains killed at every boundary crossing (before/after, with and without the peer dying too), restarted and drained past the CSV; (ii) scripted takers (silence, cancel, invalid message, coop_close with wrong/malformed/short/zero/third-party keys, cancel then coop_close, coop_close after CSV) x faults (height lookup failing after the wallet broadcast, refund broadcast failing 5x, announcement send failing) x swap output at index 0-2. Oracle: the committed record names the broadcast tx and the index of its swap output; terminal only if paid or the own spend was accepted; refund on chain after the drain.',
+         'reference watcher watches the announced (txid, vout) like the real RPC watcher; the crash window between wallet broadcast and the next store write is a listed known finding.',
+         'DESIGN.md C07'),
+ "C09": ('world-det', 'exploration', 'before/after snapshot oracle (all persisted records as bytes + active-swap object identity) around single adversarial deliveries at seed-chosen points of honest runs',
+         '2600 (quick) histories: a real node holding a finished swap and a live swap stopped after 0-8 queue steps/0-4 blocks (all roles, both chains, optionally in the restart window) receives one well-formed message of each of the 7 types from the counterparty or a third party with the id of the live / finished / an unknown swap; unless the message is from the counterparty and its event is in the table row of the current state, the record must be byte-identical, the machine the same object in the same state, other swaps untouched, and a request reusing a known id must be answered with cancel.',
+         'state tables read through the verif export; one delivery per history.',
+         'DESIGN.md C09'),
+ "C10": ('world-det', 'exploration', 'step-wise invariant over persisted swaps grouped by normalised channel id + porcupine linearizability check of concurrent channel acquisition (race build)',
+         '300 (quick) seeded sequences of local SwapIn/SwapOut, incoming requests (both channel-id spellings), cancel, restart and requests in the restart window, with the <=1-per-channel invariant and the busy=>cancel rule checked after every step; 40 concurrent rounds (6-11 goroutines, 1-2 channels) through the real entry points checked with porcupine against a per-channel test-and-set model under the race detector.',
+         'a refusal on a free channel is not judged; the restart-window admission is a listed known finding.',
+         'DESIGN.md C10'),
+ "C12": ('world-det', 'exploration', 'math/big bounds checked at every money-moving crossing of a real initiator against a scripted responder choosing extreme premiums and fee invoices',
+         '500 (quick) histories: swap-out initiator (fee invoice <= 3x own estimate and channel can carry amount+fee; claim invoice = (amount+premium)*1000 with premium <= limit) and swap-in initiator (funded swap output = amount+premium, premium <= limit, invoice = amount*1000) with premiums in {-2^63, -amount-1, -amount, -1, 0, limit, limit+-1, 2^63-1}, fee invoices {0, est, 3est, 3est+1, huge}, fee estimates {normal,0,1,error}, limit rates up to +-1e6 ppm, amounts up to 2^63/1000, rich and normal wallets; plus the responder-premium clause on the C11 workload.',
+         'Liquid output value read by unblinding with the announced blinding key.',
+         'DESIGN.md C12'),
+ "C16": ('world-det', 'fault_enumeration', 'prefix enumeration (peer dies at every boundary crossing, optional crash before or inside the drain) followed by a bounded drain procedure counted in logical steps',
+         '4 roles x 2 chains x {happy, payment failing, claim broadcast failing}: the peer dies at every (quick: every 2nd/3rd) crossing of the node, optionally with a kill of the node before the cut or inside the drain; the drain = <=6 rounds of {advance the virtual clock 11 min, resolve pending HTLCs, heal services, mine past payment windows and CSV, restart}. Verdict: every swap terminal and the active-swap map empty. The crash-after-own-spend family is listed as known findings.',
+         'bounded restatement of liveness; fairness = the drain script.',
+         'DESIGN.md C16'),
+ "C17": ('world-det', 'fault_enumeration', 'virtual-clock histories with a restart after every crossing of the negotiation phase (exhaustive small grid)',
+         'Requester (swap-in and swap-out) never answered, and swap-out responder whose fee invoice is never paid, on both chains, with a restart after crossing 0..14; the virtual clock advances exactly 10 minutes; the committed state must be SwapCanceled and a cancel must have been sent.',
+         'timeouts observed through the verif timeout hook (virtual clock).',
+         'DESIGN.md C17'),
+ "C21": ('world-det', 'exploration', 'strict decode of every sent message against the protocol numbering, codec round trip of generated values, snapshot oracle around junk deliveries',
+         'Every message sent in a mix of two-node histories must carry an odd type in 42069..42085 whose payload strictly decodes into the message of that number and re-encodes to the same JSON value; 4000 (quick) generated extreme values go through Marshal -> hex type string -> type lookup -> Unmarshal; 7500 junk deliveries (foreign/odd type strings, null/tiny/truncated/mutated/oversized payloads) to nodes with live swaps must change no record, no active swap, send nothing and not panic.',
+         'junk = non-peerswap type, oversized, null, or not JSON-decodable into the message of its type; decodable-but-invalid requests are C11 (cancel).',
+         'DESIGN.md C21'),
+ "C23": ('world-det', 'exploration', "passive scan of all outgoing payloads for the sender's secrets in six encodings over a mix of histories incl. crash/restart histories",
+         "Both nodes of ~60 mixed histories (happy, coop after failed payment, CSV, cancel, failing claim) and of the 400-point crash sweep: swap private keys (from committed records), claim/fee preimages of own invoices and wallet blinding keys are searched in raw, hex, HEX, base64, base64url and reversed-hex form in every sent payload; only the taker's own key as privkey of its coop_close is allowed.",
+         'Bitcoin wallet keys never enter the process (simulated lightningd wallet); logs are not scanned.',
+         'DESIGN.md C23'),
+ "C24": ('txlab', 'exploration', 'sweep of the real CLN route builder and LND payment-request builder through verif exports + channel check on every payment crossing of world runs',
+         '12000 (quick) generated (invoice destination/amount/CLTV, channel id spelling, limit) inputs: CLN route = exactly one hop over the swap channel (x spelling) to the invoice payee for the invoice amount; LND request = exactly that channel, MaxParts 1, the invoice itself, no amount/destination override, refused for a foreign destination; all fee/claim payments of 40 two-node swaps name the swap channel.',
+         'sendpay / SendPaymentV2 themselves are not executed (no fake CLN/LND server): the objects handed to them are checked.',
+         'DESIGN.md C24'),
+ "C26": ('world-det', 'exploration', 'follow-up probes (policy file, fresh policy, requests, local initiations, real PeerSync over a fake Lightning port with a control peer) after real CSV refunds, before and after a restart',
+         'Both maker roles x both chains x taker {silent, cancel, wrong-key coop_close} end in ClaimedCsv on a real node; then the policy file line, a fresh policy, 4 requests from the peer (cancel, no agreement), 2 local initiations (error, no request sent) and a real PeerSync (no message to the peer, no stored capability; control peer does get both) are checked, twice.',
+         "PeerSync instantiated by the harness with the node's policy and premium objects as the mains do.",
+         'DESIGN.md C26'),
  "C08": ("world-det", "exploration", "online monitor at the opening_tx_broadcasted send crossing against the transaction the wallet really broadcast",
          "For each real two-node swap (both chains, both maker roles, random funding layouts: 1-5 inputs, swap output at index 0-3, fee output first/last) every outgoing opening_tx_broadcasted copy is compared with ground truth: tx id, index of the output carrying the reference script for the announced invoice hash, invoice amount/expiry/final CLTV, blinding key (go-elements unblinding) and byte-identity of retransmitted copies.",
          "Bitcoin wallet adapter is the harness mirror of the CLN adapter; simulated Lightning invoices.",
@@ -101,11 +153,11 @@ def main():
     print("checks:", len(checks), "not_applicable:", len(na))
 
 NA = {}
-HOOK_COMMITS = ["979c0a1", "95de7f2", "9fafd20"]
+HOOK_COMMITS = ["979c0a1", "95de7f2", "9fafd20", "2176eb6"]
 ENGINES = [
- {"name": "world-det", "path": "harness/sim + harness/props", "kind_free_text": "deterministic simulated world around real swap services (chains, Lightning ledger, wallets, bus, virtual timers, crash injection at the node boundary) with online/offline monitors", "serves_properties": ["C01","C03","C08","C11","C13","C15"]},
+ {"name": "world-det", "path": "harness/sim + harness/props", "kind_free_text": "deterministic simulated world around real swap services (chains, Lightning ledger, wallets, bus, virtual timers, crash injection at the node boundary) with online/offline monitors", "serves_properties": ["C01","C03","C04","C05","C06","C07","C08","C09","C10","C11","C12","C13","C15","C16","C17","C21","C23","C26"]},
  {"name": "world-real", "path": "harness/sim + harness/props (race build)", "kind_free_text": "real watchers/retransmitters with concurrent stimuli under the Go race detector and goroutine-dump lock-cycle analysis", "serves_properties": []},
- {"name": "txlab", "path": "harness/ref/tmpl + harness/props", "kind_free_text": "script/transaction laboratory: btcd script engine, independent template interpreter, Liquid confidential transactions", "serves_properties": ["C02"]},
+ {"name": "txlab", "path": "harness/ref/tmpl + harness/props", "kind_free_text": "script/transaction laboratory: btcd script engine, independent template interpreter, Liquid confidential transactions", "serves_properties": ["C02","C24"]},
  {"name": "model-at-runtime", "path": "harness/props", "kind_free_text": "model-based operation sequences against real components with a reference model as oracle (porcupine for concurrent histories)", "serves_properties": ["C14","C25","C27","C28","C29","C30"]},
 ]
 
